@@ -392,6 +392,12 @@ func decCase(g *hc.Gen, o *hc.Out, dir string) {
 			rk = risk{delims: g.Intn(3) == 0}
 		}
 		t := genTable(g, rk, f != option.CSV && f != option.TSV, 6)
+		big := g.Intn(25) == 0
+		if big {
+			// the size band: more records than the loader's prepared capacity
+			op = bigOpts(g, f)
+			t = genBigTable(g, genBigRows(g))
+		}
 		if f == option.FIXED {
 			op.positions = genPositions(g, t, op)
 			if g.Intn(8) == 0 && len(op.positions) > 1 {
@@ -416,7 +422,9 @@ func decCase(g *hc.Gen, o *hc.Out, dir string) {
 		if g.Intn(3) != 0 {
 			data = append(data, wo.lb.Value()...)
 		}
-		if g.Intn(2) == 0 {
+		if big {
+			src = "big"
+		} else if g.Intn(2) == 0 {
 			data = mutate(g, data)
 			src = "mutated"
 		}
@@ -892,6 +900,8 @@ func main() {
 		corpus(o, scratch)
 		for i := 0; i < n; i++ {
 			switch k := i % 10; {
+			case i%20 == 19:
+				bigCase(g, o, scratch)
 			case k < 3:
 				encCase(g, o)
 			case k < 6:
